@@ -62,6 +62,8 @@ FIXED = [
     ('F24', 'C05', 'fix: best_path2 used np.Inf, which NumPy 2 removed', 'best_path2 raised AttributeError on matrices with -1 marks', None),
     ('F25', 'C05', 'fix: dtw_warping_path(_ndim) started back-tracking in the corner instead of the relaxed end cell',
      'warping_path_fast([0,0],[1,0,2.5],psi=1) = [(0,1)] (does not reach the relaxed corner)', None),
+    ('F26', 'C06', 'fix: square distance matrix for a block that selects no pair raised IndexError',
+     'distance_matrix(series, block=((0,1),(0,1))) (no pair selected, square form) raised IndexError', None),
 ]
 
 OPEN = [
